@@ -70,6 +70,16 @@ chk("C15", "model_checking",
     "TLA+ spec (Slurm) model-checked by TLC; exhaustive spec->impl replay; impl->spec trace validation",
     "DESIGN.md §3 C15")
 
+chk("C17", "model_checking",
+    "X509Time specifies calendar, Enc (tag choice 1950-2049), Dec (fixed width, all digits, Z, real date, pivot 50), windows and "
+    "minimal-DER serials; TLC checks Dec(Enc(t)) = t over boundary years x months x days x h/m/s boundaries, that every string within "
+    "1-2 edits of a valid one over a digit-and-sign alphabet decodes only if canonical, window/trim laws over 4 instants and DER/order "
+    "laws over serial byte classes; every state is replayed through Time/Validity/Serial; a native sweep covers every calendar day "
+    "1..9999 (quick: every 53rd year); random operations are validated by Trace_X509Time.",
+    "The DER TLV wrapper around time strings is built by the harness; chrono is the library's calendar, the spec's is independent.",
+    "TLA+ spec (X509Time) model-checked by TLC; exhaustive spec->impl replay; native sweep; impl->spec trace validation",
+    "DESIGN.md §3 C17")
+
 ALL = ["C%02d" % i for i in range(1, 18)]
 
 
